@@ -1,7 +1,7 @@
 (** C20 — what "the session ends when its client is gone or silent" means for
     a handler given as a transition system over read outcomes. *)
 From Coq Require Import List Bool NArith Arith.
-From Raven Require Import Base.GoStr Model.Lifecycle Model.LifecycleSrv.
+From Raven Require Import Base.GoStr Model.Lifecycle Model.LifecycleSrv Model.LifecycleWrite.
 Import ListNotations.
 
 (** the client is gone: every further read fails with EOF or another error;
@@ -24,17 +24,6 @@ Definition i_done (s : istate) : bool := imode_eqb (i_mode s) IDone.
 Definition l_done (s : lstate) : bool := match l_mode s with LDone => true | _ => false end.
 Definition s_done (m : smode) : bool := match m with SDone => true | _ => false end.
 
-(** executable spec used by the correspondence check: given the state the
-    model is in when the client goes away, must the handler have returned? *)
-Inductive finding := IdleIgnoresReadErrors | IdleNoDeadline.
-
-(** the states in which raven violates the property *)
-Definition i_classify (s : istate) (gone : bool) : option finding :=
-  match i_mode s with
-  | IIdle => Some (if gone then IdleIgnoresReadErrors else IdleNoDeadline)
-  | _ => None
-  end.
-
 (** time (ms) until the handler has returned when the client stays silent:
     the sum of the deadlines of the read sites passed; [None] = never within
     the fuel *)
@@ -44,7 +33,10 @@ Fixpoint i_silence_ms (fuel : nat) (s : istate) : option N :=
   | Some d =>
       match fuel with
       | O => None
-      | S f => match i_silence_ms f (fst (istep s Timeout)) with
+      | S f =>
+          let '(s1, r) := istep s Timeout in
+          if existsb is_close r then Some d        (* the server closed the connection: the next read fails at once *)
+          else match i_silence_ms f s1 with
                | Some t => Some (d + t)%N
                | None => None
                end
@@ -108,10 +100,10 @@ Fixpoint l_observe (cf : lconf) (s : lstate) (es : list event) : list (list lrep
   | e :: es' => if l_done s then [] else let '(s1, r) := lstep cf s e in r :: l_observe cf s1 es'
   end.
 
-Fixpoint s_observe (m : smode) (es : list event) : list nat :=
+Fixpoint s_observe (shut : bool) (m : smode) (es : list event) : list nat :=
   match es with
   | [] => []
-  | e :: es' => if s_done m then [] else let '(m1, r) := sstep m e in r :: s_observe m1 es'
+  | e :: es' => if s_done m then [] else let '(m1, r) := sstep shut m e in r :: s_observe shut m1 es'
   end.
 
 (** collapse runs of equal consecutive IDLE poll deadlines *)
@@ -128,7 +120,7 @@ Fixpoint group {A} (sizes : list nat) (l : list (list A)) : list (list A) :=
   end.
 
 Definition reply_eqb (a b : reply) : bool :=
-  match a, b with RCont, RCont | RTag, RTag | RBye, RBye | RStarBad, RStarBad => true | _, _ => false end.
+  match a, b with RCont, RCont | RTag, RTag | RBye, RBye | RStarBad, RStarBad | RClose, RClose => true | _, _ => false end.
 
 Definition lreply_matches (m : lreply) (digit : N) : bool :=
   match m with
@@ -147,17 +139,14 @@ Definition opt_list {A} (l : list (option A)) : list A :=
   flat_map (fun o => match o with Some x => [x] | None => [] end) l.
 
 (** verdict word for one IMAP scenario: bit0 replies agree, bit1 deadline log
-    agrees, bit2 the model says the handler has returned, bits 3.. the finding
-    class of the state in which the client went away (0 none) *)
-Definition i_verdict (tls : bool) (es : list event) (gone_at : nat) (gone : bool) (sizes : list nat)
+    agrees, bit2 the model says the handler has returned *)
+Definition i_verdict (tls : bool) (es : list event) (sizes : list nat)
            (impl_replies : list (list reply)) (impl_log : list N) : N :=
   let obs := i_observe (i_init tls) es in
-  let r_ok := list_eqb (list_eqb reply_eqb) (group sizes (map snd obs)) impl_replies in
+  let r_ok := list_eqb (list_eqb reply_eqb) (group sizes (map (fun x => real_replies (snd x)) obs)) impl_replies in
   let l_ok := list_eqb N.eqb (collapse50 (opt_list (map fst obs))) (collapse50 impl_log) in
   let done := i_done (fst (irun (i_init tls) es)) in
-  let cls := match i_classify (fst (irun (i_init tls) (firstn gone_at es))) gone with
-             | None => 0 | Some IdleIgnoresReadErrors => 1 | Some IdleNoDeadline => 2 end%N in
-  ((if r_ok then 1 else 0) + (if l_ok then 2 else 0) + (if done then 4 else 0) + 8 * cls)%N.
+  ((if r_ok then 1 else 0) + (if l_ok then 2 else 0) + (if done then 4 else 0))%N.
 
 Definition l_verdict (cf : lconf) (es : list event) (sizes : list nat)
            (impl_replies : list (list N)) (impl_log : list N) : N :=
@@ -168,10 +157,10 @@ Definition l_verdict (cf : lconf) (es : list event) (sizes : list nat)
   ((if r_ok then 1 else 0) + (if l_ok then 2 else 0) + (if done then 4 else 0))%N.
 
 Definition s_verdict (es : list event) (sizes : list nat) (impl_counts : list nat) (impl_log : list N) : N :=
-  let obs := s_observe SCmd es in
+  let obs := s_observe false SCmd es in
   let r_ok := list_eqb Nat.eqb (map (fun l => fold_right plus 0 l) (group sizes (map (fun n => [n]) obs))) impl_counts in
   let l_ok := (forallb (N.eqb 30000) impl_log && negb (Nat.eqb (length impl_log) 0))%bool in
-  let done := s_done (fst (srun SCmd es)) in
+  let done := s_done (fst (srun false SCmd es)) in
   ((if r_ok then 1 else 0) + (if l_ok then 2 else 0) + (if done then 4 else 0))%N.
 
 (** service histories: 0 accepted, 1 refused, 2 ended, 3 shutdown returned,
@@ -180,3 +169,32 @@ Definition sout_code (o : sout) : N :=
   match o with OAccepted => 0 | ORefused => 1 | OEnded => 2 | OShutReturned => 3
              | OShutBlocked => 4 | OShutPanic => 5 | ONone => 6 end%N.
 Definition srv_codes (k : svc) (h : list sev) : list N := map sout_code (snd (srv_run k srv_init h)).
+
+(** ** the client stops reading: [prefix] is run with every write taken, then
+    [stall] with every write blocked. Verdict: bit0 the model says the handler
+    has returned, bit1 every write deadline the handler asked for is the one
+    of the table (and at least one was asked for). *)
+Definition with_w (w : wout) (es : list event) : list (event * wout) := map (fun e => (e, w)) es.
+
+Definition wlog_ok (k : service) (cf : lconf) (wlog : list N) : bool :=
+  match write_deadline k cf with
+  | Some d => (forallb (N.eqb d) wlog && negb (Nat.eqb (length wlog) 0))%bool
+  | None => false
+  end.
+
+Definition no_conf : lconf := mk_lc Z0 O N0.
+
+Definition i_stall_verdict (tls : bool) (prefix stall : list event) (wlog : list N) : N :=
+  let s := fst (irun (i_init tls) prefix) in
+  let done := i_done (fst (irun_w false s (with_w WBlocked stall))) in
+  ((if done then 1 else 0) + (if wlog_ok SImap no_conf wlog then 2 else 0))%N.
+
+Definition l_stall_verdict (cf : lconf) (prefix stall : list event) (wlog : list N) : N :=
+  let s := fst (lrun cf l_init prefix) in
+  let done := l_done (fst (lrun_w cf false s (with_w WBlocked stall))) in
+  ((if done then 1 else 0) + (if wlog_ok SLmtp cf wlog then 2 else 0))%N.
+
+Definition s_stall_verdict (prefix stall : list event) (wlog : list N) : N :=
+  let m := fst (srun false SCmd prefix) in
+  let done := s_done (fst (srun_w false false m (with_w WBlocked stall))) in
+  ((if done then 1 else 0) + (if wlog_ok SSasl no_conf wlog then 2 else 0))%N.
